@@ -13,6 +13,10 @@ import random
 VERIF_DIR = os.path.dirname(os.path.dirname(os.path.abspath(__file__)))
 REPLAY_DIR = os.path.join(VERIF_DIR, 'replays')
 EVIDENCE_DIR = os.path.join(VERIF_DIR, 'evidence')
+if os.path.realpath(os.environ.get('PYX12_REPO', '/repo')) != os.path.realpath('/repo'):
+    # a sensitivity run against a scratch mutant copy: its evidence is not evidence about /repo
+    import tempfile
+    EVIDENCE_DIR = os.path.join(tempfile.gettempdir(), 'verif-evidence-mutant')
 KNOWN_FILE = os.path.join(VERIF_DIR, 'known_findings.json')
 
 
